@@ -14,7 +14,7 @@ from hypothesis import strategies as st
 from hypothesis.stateful import RuleBasedStateMachine, initialize, precondition, rule, run_state_machine_as_test
 
 from vf import gen
-from vf.drive import make_frames, run_case, table_digest
+from vf.drive import call_arguments, make_frames, run_case, table_digest
 from vf.props import common
 from vf.runner import exc_signature, hyp_run, jhash
 
@@ -23,7 +23,8 @@ LEVEL = "exploration"
 RULE = (
     "(a) Hypothesis rule-based state machine: a pool of 2-3 generated (election, request) pairs across the three "
     "estimators; rules run(i) on a long-lived client, run_fresh(i) on a new client, run_reusing_frames(i) (the same "
-    "DataFrame objects passed again, as a pipeline holding one loaded baseline would), summary(i) (bootstrap national "
+    "DataFrame objects passed again, as a pipeline holding one loaded baseline would), run_reusing_arguments(i) (the same "
+    "model-parameter / config dicts and estimand / level / aggregate lists passed again), summary(i) (bootstrap national "
     "summary after a run); model = digest of the first result of i; every later result of i must equal it bit for bit "
     "whatever ran in between. (b) the same serialised case run in fresh interpreters under PYTHONHASHSEED 0, 1 and "
     "random (incl. historical-evaluation cases, whose aggregate order goes through a set): the table digests and the "
@@ -67,6 +68,7 @@ class Histories(RuleBasedStateMachine):
         self.first = {}
         self.first_summary = {}
         self.frames = {}
+        self.args = {}
         self.client = None
         self.trace = []
         self.last_on_client = None
@@ -140,6 +142,17 @@ class Histories(RuleBasedStateMachine):
         r = run_case(self.cases[i], client=self.client, frames=self.frames[fk])
         self.last_on_client = i if r.ok else None
         self._record(i, r, "run_reusing_frames")
+
+    @rule(i=st.integers(0, 2))
+    def run_reusing_arguments(self, i):
+        """The same argument OBJECTS (model-parameter dict, config dict, estimand / level / aggregate lists, fixed
+        effects) are passed again, as a caller holding its settings in variables would: a call must not change them."""
+        i %= len(self.cases)
+        if i not in self.args:
+            self.args[i] = call_arguments(self.cases[i])
+        r = run_case(self.cases[i], client=self.client, args=self.args[i])
+        self.last_on_client = i if r.ok else None
+        self._record(i, r, "run_reusing_arguments")
 
     @precondition(lambda self: self.last_on_client is not None and self.cases[self.last_on_client]["req"]["pi"] == "bootstrap")
     @rule()
@@ -280,6 +293,10 @@ def _sub_strategy(draw, stratum=None):
         case["historical"] = True
     else:
         case = draw(small_case(estimators=(kind,), min_nonrep=1))
+        if kind == "bootstrap" and draw(st.booleans()):
+            # two strata columns: their order (and with it the order of the strata dummies and of the seeded
+            # re-sampling) must come from the setting, not from a hash-ordered container
+            case["req"]["mp"]["strata"] = ["county_classification", "postal_code"]
     return case
 
 
@@ -418,6 +435,7 @@ def replay(case, ctx):
         pool = case["pool"]
         client = ModelClient()
         frames = {}
+        args_of = {}
         first = {}
         first_summary = {}
         for how, pi, i in case["history"]:
@@ -443,6 +461,10 @@ def replay(case, ctx):
                 r = run_case(c, client=client)
             elif how == "run_fresh":
                 r = run_case(c)
+            elif how == "run_reusing_arguments":
+                if i not in args_of:
+                    args_of[i] = call_arguments(c)
+                r = run_case(c, client=client, args=args_of[i])
             else:
                 fk = 0 if case.get("shared") else i
                 if fk not in frames:
